@@ -1,6 +1,12 @@
-"""Engine R: step a TLC-generated behaviour of ShampooOpt through the real optimizer, comparing after every action
-(a) the structural observation record with the spec's, (b) bitwise frame conditions, (c) every state tensor with the
-float64 reference driven by the spec's control decisions."""
+"""Engines R and T on the real optimizer.
+
+A Runner steps the real DistributedShampoo through a sequence of inputs (gradient presence, scripted outcomes of the
+matrix routine, param_groups changes) and produces
+  * the OBSERVED trace in the vocabulary of spec/ShampooTrace (validated by TLC against the specification), and
+  * checks that cannot be phrased over scalars: bitwise frame conditions, parameters untouched on a raising step,
+    stored roots finite, and the numeric comparison of every state tensor with the float64 reference that is driven
+    by the SPEC's control decisions (`expected` observation records).
+"""
 from __future__ import annotations
 
 import math
@@ -10,7 +16,6 @@ import torch
 from harness import faults, realopt, refopt
 
 F64 = torch.float64
-EXC = {"none": None, "tol": "ValueError", "value": "PreconditionerValueError"}
 
 
 def classify_exception(ex):
@@ -21,6 +26,8 @@ def classify_exception(ex):
         return "value"
     if type(ex) is ValueError and "exceeded the allowed tolerance" in str(ex):
         return "tol"
+    if isinstance(ex, (RuntimeError, AssertionError, ValueError, IndexError)) and not isinstance(ex, faults.InjectedFailure):
+        return "len"   # a crash inside step(): the spec's only non-documented exception class is the list-length mismatch
     return "other:" + type(ex).__name__
 
 
@@ -29,34 +36,37 @@ def effective_beta3(draw, gi):
     if g.get("beta3", -1.0) != -1.0:
         return g["beta3"]
     g0 = draw["groups"][0]
-    if g0.get("beta3", -1.0) != -1.0 and gi > 0:
+    if gi > 0 and g0.get("beta3", -1.0) != -1.0:
         return g0["beta3"]
-    src = draw["groups"][0] if gi > 0 else g
+    src = g0 if gi > 0 else g
     return src["b1"][src.get("b10", 1)]
 
 
 class Runner:
-    """Holds the real optimizer, the reference, and the current hyper indices."""
-
-    def __init__(self, draw, pt2=None, numeric=True, opt=None, params=None):
+    def __init__(self, draw, pt2=None, numeric=True, opt=None, params=None, distributed_config=None):
         self.draw = draw
         if opt is None:
-            opt, params = realopt.build(draw, pt2=pt2)
+            opt, params = realopt.build(draw, pt2=pt2, distributed_config=distributed_config)
         self.opt, self.params = opt, params
+        self.ng = len(draw["groups"])
         self.numeric = numeric and draw["dtype"] == "float64" and draw["pdtype"] == "float64"
         self.hy = [{"lr": g.get("lr0", 1), "mom": g.get("mom0", 1), "b1": g.get("b10", 1), "wd": g.get("wd0", 0)} for g in draw["groups"]]
         self.abstract = [realopt.abstract_group(opt, gi, g) for gi, g in enumerate(draw["groups"])]
+        self.meta = [realopt.ref_blocks(opt, gi, g) for gi, g in enumerate(draw["groups"])]
         self.refs = []
         if self.numeric:
             for gi, g in enumerate(draw["groups"]):
                 hp = dict(g)
                 hp.update(hasFilt=self.abstract[gi]["hasFilt"], hasMom=self.abstract[gi]["hasMom"])
-                self.refs.append(refopt.GroupRef(hp, self.params[gi], realopt.ref_blocks(opt, gi, g)))
-        self.script = faults.Script()
+                self.refs.append(refopt.GroupRef(hp, self.params[gi], self.meta[gi]))
         self.t = 0
         self.flags = {}
+        self.root_at = [[[0] * n for n in ab["nf"]] for ab in self.abstract]
+        self.poisoned = False
+        self.trace = []          # observed events (ShampooTrace vocabulary)
         self._wrap_group_step()
 
+    # ---- observation hooks (harness side only) ---------------------------------------------------------
     def _wrap_group_step(self):
         opt = self.opt
         try:
@@ -69,11 +79,34 @@ class Runner:
                 rec = dict(zip(names, a))
                 rec.update(kw)
                 gi = next(i for i, sl in enumerate(opt._per_group_state_lists) if sl is rec["state_lists"])
-                self.flags[gi] = {"refresh": bool(rec["perform_amortized_computation"]), "usegraft": bool(rec["use_grafting_method"])}
+                self.flags[gi] = {"refresh": bool(rec["perform_amortized_computation"]),
+                                  "usegraft": bool(rec["use_grafting_method"])}
                 return inner(*a, **kw)
             opt._per_group_step = wrapped
         except Exception:
             self.flags = None
+
+    def resolve_factor(self, A, est):
+        """Which (group, block, factor) is the matrix routine being called for?  By identity (SOAP passes the state
+        tensor) or by proportionality to a stored factor matrix (Shampoo passes factor / bias_correction)."""
+        for gi in range(self.ng):
+            for (b, name), t in self._tensors[gi].items():
+                if not name.startswith("fac"):
+                    continue
+                tt = t.to_local() if hasattr(t, "to_local") else t
+                if tt.shape != A.shape:
+                    continue
+                if tt.data_ptr() == A.data_ptr():
+                    return (gi, b, int(name[3:]))
+                a, f = A.detach().to(F64), tt.detach().to(F64)
+                i = int(f.abs().argmax())
+                fa, aa = float(f.reshape(-1)[i]), float(a.reshape(-1)[i])
+                if fa != 0.0 and aa != 0.0 and math.isfinite(fa) and math.isfinite(aa):
+                    if torch.allclose(a * (fa / aa), f, rtol=1e-5, atol=0.0, equal_nan=True):
+                        return (gi, b, int(name[3:]))
+                elif not (math.isfinite(fa) and math.isfinite(aa)):
+                    continue
+        return None
 
     def concrete_hy(self, gi):
         g = self.draw["groups"][gi]
@@ -85,157 +118,164 @@ class Runner:
         gi = ev["g"] - 1
         self.hy[gi][ev["key"]] = ev["v"]
         realopt.set_hyper(self.opt, gi, self.draw["groups"][gi], ev["key"], ev["v"])
+        self.trace.append({"ev": "SetHyper", "g": ev["g"], "key": ev["key"], "v": ev["v"]})
 
-    def do_step(self, ev, check=True):
-        """Returns a list of mismatches (clause, expected, observed)."""
-        opt, draw = self.opt, self.draw
-        self.t += 1
-        mism = []
+    def make_grads(self, present, outc):
+        draw = self.draw
         grads = []
-        outcomes = []
         for gi, g in enumerate(draw["groups"]):
             gg = []
             for pi, shp in enumerate(g["shapes"]):
-                p = self.params[gi][pi]
-                if ev["present"][gi][pi]:
-                    gr = realopt.make_grad(draw, gi, pi, self.t, shp)
-                    gg.append(gr)
-                else:
-                    gg.append(None)
+                gg.append(realopt.make_grad(draw, gi, pi, self.t, shp) if present[gi][pi] else None)
             grads.append(gg)
-        # gradient infinities requested by the spec (outc[b].inf): poison one element of that block's region
         for gi, g in enumerate(draw["groups"]):
-            ob = ev["obs"][gi]
-            for b, oc in enumerate(ev["outc"][gi], start=1):
-                if oc["inf"]:
-                    meta = realopt.ref_blocks(opt, gi, g)[b - 1]
+            for b, oc in enumerate(outc[gi], start=1):
+                meta = self.meta[gi][b - 1]
+                if oc["inf"] and grads[gi][meta["param"]] is not None:
                     gv = grads[gi][meta["param"]].view(meta["merged"])
                     gv[tuple(s for s, _ in meta["slices"])] = float("inf")
-            if ob.get("reached"):
-                outcomes += [c[2] for c in ob["calls"]]
-        for gi in range(len(draw["groups"])):
+                    self.poisoned = True
+        return grads
+
+    def do_step(self, present, outc, expected=None):
+        """One optimizer.step().  `expected`: the spec's observation records per group (enables the numeric check).
+        Returns the list of python-side mismatches (clause, expected, observed)."""
+        opt, draw = self.opt, self.draw
+        self.t += 1
+        mism = []
+        grads = self.make_grads(present, outc)
+        for gi in range(self.ng):
             for p, gr in zip(self.params[gi], grads[gi]):
                 p.grad = None if gr is None else gr.clone()
-        before = [realopt.snapshot(opt, gi) for gi in range(len(draw["groups"]))]
-        steps_before = [realopt.group_step_value(opt, gi) for gi in range(len(draw["groups"]))]
+        self._tensors = [realopt.block_state_tensors(opt, gi) for gi in range(self.ng)]
+        before = [{k: realopt.tensor_hash(v) for k, v in self._tensors[gi].items()} for gi in range(self.ng)]
+        steps_before = [realopt.group_step_value(opt, gi) for gi in range(self.ng)]
         if self.flags is not None:
             self.flags.clear()
-        self.script.arm(outcomes)
+        calls = []
+
+        def decide(name, A, est):
+            who = self.resolve_factor(A, est)
+            if who is None:
+                calls.append((None, None, None, "ok"))
+                return "ok"
+            gi, b, k = who
+            out = outc[gi][b - 1]["f"][k - 1] if k - 1 < len(outc[gi][b - 1]["f"]) else "ok"
+            calls.append((gi, b, k, out))
+            return out
         exc = None
-        with faults.patched(self.script):
+        with faults.patched_keyed(decide):
             try:
                 opt.step()
             except Exception as e:  # noqa
                 exc = e
-        observed_raise = classify_exception(exc)
-        after = [realopt.snapshot(opt, gi) for gi in range(len(draw["groups"]))]
-        exp_raise = "none"
-        for ob in ev["obs"]:
-            if ob.get("reached") and ob["raised"] != "none":
-                exp_raise = ob["raised"]
-        if observed_raise != exp_raise:
-            mism.append(("raised", exp_raise, observed_raise + (f" ({exc})" if exc is not None and observed_raise.startswith('other') else "")))
-        n_calls = sum(1 for x in self.script.log)
-        if n_calls != len(outcomes):
-            mism.append(("matrix_routine_calls", len(outcomes), n_calls))
+        raised = classify_exception(exc)
+        after = [{k: realopt.tensor_hash(v) for k, v in self._tensors[gi].items()} for gi in range(self.ng)]
+        entered = sorted(self.flags) if self.flags is not None else None
+        raising_group = (max(entered) if entered else 0) if raised != "none" else None
+        obs_all = []
         for gi, g in enumerate(draw["groups"]):
-            ob = ev["obs"][gi]
             ab = self.abstract[gi]
             sv = realopt.group_step_value(opt, gi)
-            if not ob.get("reached"):
+            reached = raised == "none" or (raising_group is not None and gi <= raising_group)
+            active = [b + 1 for b, m in enumerate(self.meta[gi]) if present[gi][m["param"]]]
+            if not reached:
+                obs_all.append({"has": True, "reached": False})
                 if after[gi] != before[gi] or sv != steps_before[gi]:
                     mism.append((f"g{gi+1}.untouched_after_abort", "unchanged", "changed"))
                 continue
-            if sv != ob["step"]:
-                mism.append((f"g{gi+1}.step", ob["step"], sv))
-            if self.flags is not None and ob["stepped"] and gi in self.flags:
-                for k in ("refresh", "usegraft"):
-                    if self.flags[gi][k] != ob[k]:
-                        mism.append((f"g{gi+1}.flag.{k}", ob[k], self.flags[gi][k]))
-            if self.flags is not None and ob["stepped"] != (gi in self.flags):
-                mism.append((f"g{gi+1}.stepped", ob["stepped"], gi in self.flags))
+            # root ages from changed bits
+            for (b, name), h in after[gi].items():
+                if name.startswith("root") and before[gi][(b, name)] != h:
+                    self.root_at[gi][b - 1][int(name[4:]) - 1] = sv
+            ob = {"has": True, "reached": True, "step": sv, "stepped": sv != steps_before[gi],
+                  "raised": raised if gi == raising_group else "none",
+                  "calls": [[b, k, o] for (g2, b, k, o) in calls if g2 == gi],
+                  "rootAt": [list(r) for r in self.root_at[gi]], "active": active}
+            if self.flags is not None:
+                ob["stepped"] = gi in self.flags
+                if gi in self.flags:
+                    ob["refresh"] = self.flags[gi]["refresh"]
+                    ob["usegraft"] = self.flags[gi]["usegraft"]
             ml = realopt.masked_lists(opt, gi)
             if ml is not None:
-                for name, lst in ml.items():
-                    exp = ob["lists"][name]
-                    if name == "mF" and not ab["hasFilt"] or name == "mM" and not ab["hasMom"]:
-                        continue
-                    if list(lst) != list(exp):
-                        mism.append((f"g{gi+1}.masked_list.{name}", list(exp), list(lst)))
-            # bitwise frame: blocks whose parameter has no gradient keep every tensor; changed-bits for the others
-            active = set(ob["active"])
-            prev_obs = self.prev_obs[gi] if hasattr(self, "prev_obs") and self.prev_obs[gi] else None
+                ob["lists"] = ml
+            obs_all.append(ob)
+            # ---- checks over tensors (not expressible over the trace's scalars) ----
+            act = set(active)
             for (b, name), h in after[gi].items():
                 changed = before[gi][(b, name)] != h
-                if b not in active and changed:
+                if b not in act and changed:
                     mism.append((f"g{gi+1}.frame.b{b}.{name}", "bitwise unchanged", "changed"))
-                if b in active and name.startswith("root"):
-                    k = int(name[4:])
-                    was = prev_obs["rootAt"][b - 1][k - 1] if prev_obs else 0
-                    exp_changed = ob["rootAt"][b - 1][k - 1] != was
-                    if changed != exp_changed:
-                        mism.append((f"g{gi+1}.root_refreshed.b{b}.k{k}", exp_changed, changed))
-                if b in active and name == "param" and ob["raised"] != "none" and changed:
-                    mism.append((f"g{gi+1}.param_changed_on_raise.b{b}", "unchanged", "changed"))
+                if b in act and ob["raised"] != "none" and name in ("param", "mom", "filt") and changed:
+                    mism.append((f"g{gi+1}.changed_on_raise.b{b}.{name}", "unchanged", "changed"))
+                if b in act and ob["raised"] == "none" and ob["stepped"] and not changed and not self.poisoned:
+                    hyc = self.concrete_hy(gi)
+                    must = (name.startswith("fac") or name in ("graft", "cev")
+                            or (name == "filt" and hyc["beta1"] != 0.0))   # momentum may legitimately stay 0 (zero direction)
+                    if must:
+                        mism.append((f"g{gi+1}.own_buffer_updated.b{b}.{name}", "changed", "bitwise unchanged"))
                 if name.startswith("root") and h != "empty":
-                    t = realopt.block_state_tensors(opt, gi)[(b, name)]
-                    if not bool(torch.isfinite(t.to(torch.float64) if not hasattr(t, "to_local") else t.to_local().to(torch.float64)).all()):
+                    t = self._tensors[gi][(b, name)]
+                    t = t.to_local() if hasattr(t, "to_local") else t
+                    if not bool(torch.isfinite(t.detach().to(F64)).all()):
                         mism.append((f"g{gi+1}.stored_root_finite.b{b}.{name}", "finite", "non-finite"))
-        if not hasattr(self, "prev_obs"):
-            self.prev_obs = [None] * len(draw["groups"])
-        for gi, ob in enumerate(ev["obs"]):
-            if ob.get("reached"):
-                self.prev_obs[gi] = ob
-        # numeric reference (skipped once non-finite values were injected)
-        if self.numeric and not getattr(self, "poisoned", False):
-            if any(oc["inf"] for gi in range(len(draw["groups"])) for oc in ev["outc"][gi]):
-                self.poisoned = True
-            else:
-                for gi, g in enumerate(draw["groups"]):
-                    ob = ev["obs"][gi]
-                    if not ob.get("reached"):
-                        continue
-                    bases = None
-                    if g["kind"] == "soap":
-                        tens = realopt.block_state_tensors(opt, gi)
-                        bases = {(c[0], c[1]): tens[(c[0], f"root{c[1]}")].detach().clone() for c in ob["calls"] if c[2] == "ok"}
-                        mism += self.check_bases(gi, g, ob, tens)
-                    self.refs[gi].step(ob, grads[gi], self.concrete_hy(gi), bases)
-                    mism += self.compare_numeric(gi)
+            if any(c[0] is None for c in calls):
+                mism.append((f"g{gi+1}.unidentified_matrix_call", "call for a known factor", "unknown matrix"))
+        self.trace.append({"ev": "Step", "present": present, "outc": outc, "obs": obs_all})
+        # ---- numeric reference, driven by the spec's control decisions ----
+        if self.numeric and expected is not None and not self.poisoned:
+            for gi, g in enumerate(draw["groups"]):
+                exp = expected[gi]
+                if not exp.get("reached"):
+                    continue
+                bases = None
+                if g["kind"] == "soap":
+                    bases = {(c[0], c[1]): self._tensors[gi][(c[0], f"root{c[1]}")].detach().clone()
+                             for c in exp["calls"] if c[2] == "ok" and (c[0], f"root{c[1]}") in self._tensors[gi]}
+                    mism += self.check_bases(gi, g, exp)
+                self.refs[gi].step(exp, grads[gi], self.concrete_hy(gi), bases)
+                mism += self.compare_numeric(gi)
         return mism
 
-    def check_bases(self, gi, g, ob, tens):
-        """C03: every basis written at this refresh is orthonormal and (eigh) diagonalises the factor it was computed
-        from / (QR) spans the orthogonal-iteration update of the previous basis, columns by ascending Rayleigh quotient."""
+    def check_bases(self, gi, g, exp):
+        """C03: every basis written at this refresh is orthonormal; (eigh) diagonalises the factor it was computed from,
+        columns by ascending Rayleigh quotient; (QR) is the orthogonal-iteration update of the previous basis."""
         out = []
-        ref = self.refs[gi]
-        for (b, k1, outc) in ob["calls"]:
-            if outc != "ok":
+        tens = self._tensors[gi]
+        for (b, k1, outc) in exp["calls"]:
+            if outc != "ok" or (b, f"root{k1}") not in tens:
                 continue
             q = tens[(b, f"root{k1}")].detach().to(F64)
-            blk = ref.blocks[b - 1]
-            k = blk.pdims[k1 - 1]
-            n = q.shape[0]
-            # the factor the basis was computed from: reference factor AFTER this step's accumulation (computed below by
-            # ref.step; here we recompute it from the real stored factor, which compare_numeric ties to the reference)
             a = tens[(b, f"fac{k1}")].detach().to(F64)
-            tol = 1e-8 * max(1, n)
-            if float((q.T @ q - torch.eye(n, dtype=F64)).abs().max()) > tol:
-                out.append((f"g{gi+1}.basis_orthonormal.b{b}.k{k1}", "Q^T Q = I", float((q.T @ q - torch.eye(n, dtype=F64)).abs().max())))
-            ray = torch.einsum("ij,ik,kj->j", q, a, q)
+            n = q.shape[0]
+            eye = torch.eye(n, dtype=F64)
+            oerr = float((q.T @ q - eye).abs().max())
+            if oerr > 1e-8 * max(1, n):
+                out.append((f"g{gi+1}.basis_orthonormal.b{b}.k{k1}", "Q^T Q = I", oerr))
+                continue
             scale = float(a.abs().max()) + 1e-300
+            ray = torch.einsum("ij,ik,kj->j", q, a, q)
             if g.get("method", "eigh") == "eigh":
                 d = q.T @ a @ q
-                off = d - torch.diag(torch.diag(d))
-                if float(off.abs().max()) > 1e-8 * n * scale:
-                    out.append((f"g{gi+1}.basis_diagonalises.b{b}.k{k1}", "offdiag(Q^T A Q) ~ 0", float(off.abs().max())))
+                off = float((d - torch.diag(torch.diag(d))).abs().max())
+                if off > 1e-8 * n * scale:
+                    out.append((f"g{gi+1}.basis_diagonalises.b{b}.k{k1}", "offdiag(Q^T A Q) ~ 0", off))
+            else:
+                prev = self.refs[gi].blocks[b - 1].root[self.refs[gi].blocks[b - 1].pdims[k1 - 1]]
+                if bool(prev.any()) and g.get("qr_iters", 1) == 1:
+                    qq = torch.linalg.qr(a @ prev).Q
+                    # same column spaces up to sign and ordering: |Q_ref^T Q| is a permutation matrix
+                    m = (qq.T @ q).abs()
+                    if float((m.max(dim=0).values - 1).abs().max()) > 1e-6 or float((m.sum(dim=0) - 1).abs().max()) > 1e-5:
+                        out.append((f"g{gi+1}.basis_qr_update.b{b}.k{k1}", "columns of qr(A Q_prev) up to sign/order", m.tolist()))
             if n > 1 and bool((ray[1:] < ray[:-1] - 1e-8 * scale).any()):
                 out.append((f"g{gi+1}.basis_order.b{b}.k{k1}", "ascending Rayleigh quotients", ray.tolist()))
         return out
 
     def compare_numeric(self, gi, rtol=1e-8):
         out = []
-        tens = realopt.block_state_tensors(self.opt, gi)
+        tens = self._tensors[gi]
         ref = self.refs[gi]
         g = self.draw["groups"][gi]
         for (b, name), t in tens.items():
@@ -246,19 +286,11 @@ class Runner:
                 want = blk.fac[blk.pdims[int(name[3:]) - 1]]
             elif name.startswith("root"):
                 want = blk.root[blk.pdims[int(name[4:]) - 1]]
-            elif name == "cev":
-                want = blk.cev
-            elif name == "filt":
-                want = blk.filt
-            elif name == "mom":
-                want = blk.mom
-            elif name == "graft":
-                want = blk.gacc
             else:
-                continue
+                want = {"cev": blk.cev, "filt": blk.filt, "mom": blk.mom, "graft": blk.gacc}.get(name)
             if want is None:
                 continue
-            got = t.detach().to(F64)
+            got = (t.to_local() if hasattr(t, "to_local") else t).detach().to(F64)
             if got.shape != want.shape:
                 out.append((f"g{gi+1}.shape.b{b}.{name}", list(want.shape), list(got.shape)))
                 continue
@@ -268,23 +300,37 @@ class Runner:
             err = float((got - want).abs().max())
             tol = rtol * max(scale, 1e-30)
             if name.startswith("root") and g["kind"] == "shampoo":
-                tol = 1e-6 * max(scale, 1e-30)  # conditioning of the inverse root; the factor itself is compared tightly
+                tol = 1e-6 * max(scale, 1e-30)   # conditioning of the inverse root; the factor itself is compared tightly
             if not (err <= tol) or not math.isfinite(err):
                 out.append((f"g{gi+1}.value.b{b}.{name}", f"max|.|={scale:.6g}", f"abs err {err:.3e} > {tol:.3e}"))
         return out
 
 
-def run_behaviour(draw, beh, pt2=None, numeric=True, stop_at_first=True):
-    """Returns (mismatches: list of (action index, clause, expected, observed), runner)."""
-    r = Runner(draw, pt2=pt2, numeric=numeric)
+def run_behaviour(draw, beh, pt2=None, numeric=True, stop_at_first=True, runner=None):
+    """Step the behaviour's inputs through the real optimizer.  Returns (python-side mismatches, observed trace)."""
+    r = runner or Runner(draw, pt2=pt2, numeric=numeric)
     out = []
     for i, ev in enumerate(beh):
         if ev["ev"] == "SetHyper":
             r.do_sethyper(ev)
             continue
-        mm = r.do_step(ev)
+        mm = r.do_step(ev["present"], ev["outc"], expected=ev.get("obs"))
         if mm:
-            out += [(i,) + m for m in mm]
+            out += [(i + 1,) + tuple(m) for m in mm]
             if stop_at_first:
                 break
-    return out, r
+    return out, {"cfg": r.abstract, "events": r.trace}
+
+
+def replay_task(args):
+    """Pool worker: (draw, behaviour, options) -> (py mismatches, observed trace)."""
+    import logging
+    logging.disable(logging.WARNING)
+    torch.set_num_threads(1)
+    draw, beh, opts = args
+    try:
+        mm, tr = run_behaviour(draw, beh, **opts)
+        return mm, tr, None
+    except Exception as ex:  # machinery failure inside a worker: report, do not mask
+        import traceback
+        return [], None, traceback.format_exc()
